@@ -1,5 +1,6 @@
 import OomdModel.Fault
 import OomdProofs.CtxFault
+import OomdModel.Generated.Accessors
 
 /-!
 # C10 — a tick survives missing, empty, unreadable or vanishing files
@@ -215,6 +216,13 @@ theorem accessor_layer_no_crash (A : Arith) (S : Sys) (ar : Archive) (l : Level)
     (hS : S.rootUsage.safe = true) (h : chainSafe (l :: up) = true) :
     ∀ a ∈ Acc.all, (evalAcc A S ar l up a).safe = true :=
   fun a _ => evalAcc_safe A S ar l up hS h a
+
+/-- **The table is the code's**: every accessor that `CgroupContext.cpp` defines today (list regenerated from the source on
+every run: PROXY fields and hand-written optional-returning members) has a row in the crash-point model or is one of the three
+that read no control file.  An accessor added to the code without a model row breaks this obligation. -/
+theorem every_accessor_modelled :
+    ∀ n ∈ OomdModel.Generated.cgroupContextAccessors,
+      n ∈ notFileAccessors ∨ ∃ a ∈ Acc.all, a.cxxName = some n := by decide
 
 /-- the table lists every accessor -/
 theorem acc_table_complete (a : Acc) : a ∈ Acc.all := by cases a <;> decide
